@@ -26,8 +26,15 @@ type c16HCall struct {
 	Op     string `json:"op"` // text | md | mdopt | rag | doc | tables
 	Off    int    `json:"off"`
 	Mx     int    `json:"mx"`
+	Xo     string `json:"xo"`     // the call's own extraction options: none | h | f | hf
 	Levels []int  `json:"levels"` // per body block: the level a fresh reader presents (0: none)
+	Eh     int    `json:"eh"`     // body paragraphs equal to the header line the spec's reader shows
+	Ef     int    `json:"ef"`
+	NEh    int    `json:"neh"` // ... the body has
+	NEf    int    `json:"nef"`
 }
+
+func xoFlags(xo string) (h, f bool) { return xo == "h" || xo == "hf", xo == "f" || xo == "hf" }
 
 type c16HCase struct {
 	c16Case
@@ -62,7 +69,24 @@ func (r *c16Reader) close() {
 type c16HResult struct {
 	Text  string    `json:"text,omitempty"`
 	Items []c16Item `json:"items,omitempty"`
+	Eh    int       `json:"eh"` // occurrences of the header line / footer line in the result
+	Ef    int       `json:"ef"`
 	Err   string    `json:"err,omitempty"`
+}
+
+func docEcho(doc *model.Document) (eh, ef int) {
+	if doc == nil {
+		return
+	}
+	for _, pg := range doc.Pages {
+		for _, el := range pg.Elements {
+			if g, ok := el.(interface{ GetText() string }); ok {
+				_, h, f := splitEcho(idsOf(scanTokens(g.GetText())))
+				eh, ef = eh+h, ef+f
+			}
+		}
+	}
+	return
 }
 
 func ragOpts(c c16HCall) rag.MarkdownOptions {
@@ -93,10 +117,11 @@ func (r *c16Reader) call(c c16HCall) c16HResult {
 	var doc *model.Document
 	switch c.Op {
 	case "text":
+		h, f := xoFlags(c.Xo)
 		if r.dx != nil {
-			s, err = r.dx.Text()
+			s, err = r.dx.TextWithOptions(docx.ExtractOptions{ExcludeHeaders: h, ExcludeFooters: f})
 		} else {
-			s, err = r.od.Text()
+			s, err = r.od.TextWithOptions(odt.ExtractOptions{ExcludeHeaders: h, ExcludeFooters: f})
 		}
 	case "md":
 		if r.dx != nil {
@@ -105,16 +130,18 @@ func (r *c16Reader) call(c c16HCall) c16HResult {
 			s, err = r.od.Markdown()
 		}
 	case "mdopt":
+		h, f := xoFlags(c.Xo)
 		if r.dx != nil {
-			s, err = r.dx.MarkdownWithOptions(docx.ExtractOptions{ExcludeHeaders: true, ExcludeFooters: true})
+			s, err = r.dx.MarkdownWithOptions(docx.ExtractOptions{ExcludeHeaders: h, ExcludeFooters: f})
 		} else {
-			s, err = r.od.MarkdownWithOptions(odt.ExtractOptions{ExcludeHeaders: true, ExcludeFooters: true})
+			s, err = r.od.MarkdownWithOptions(odt.ExtractOptions{ExcludeHeaders: h, ExcludeFooters: f})
 		}
 	case "rag":
+		h, f := xoFlags(c.Xo)
 		if r.dx != nil {
-			s, err = r.dx.MarkdownWithRAGOptions(docx.ExtractOptions{}, ragOpts(c))
+			s, err = r.dx.MarkdownWithRAGOptions(docx.ExtractOptions{ExcludeHeaders: h, ExcludeFooters: f}, ragOpts(c))
 		} else {
-			s, err = r.od.MarkdownWithRAGOptions(odt.ExtractOptions{}, ragOpts(c))
+			s, err = r.od.MarkdownWithRAGOptions(odt.ExtractOptions{ExcludeHeaders: h, ExcludeFooters: f}, ragOpts(c))
 		}
 	case "doc":
 		if r.dx != nil {
@@ -123,7 +150,8 @@ func (r *c16Reader) call(c c16HCall) c16HResult {
 			doc, err = r.od.Document()
 		}
 		if err == nil {
-			return c16HResult{Items: projectModel(doc)}
+			eh, ef := docEcho(doc)
+			return c16HResult{Items: projectModel(doc), Eh: eh, Ef: ef}
 		}
 	case "tables":
 		if r.dx != nil {
@@ -135,7 +163,11 @@ func (r *c16Reader) call(c c16HCall) c16HResult {
 	if err != nil {
 		return c16HResult{Err: err.Error()}
 	}
-	return c16HResult{Text: s}
+	res := c16HResult{Text: s}
+	if c.Op != "tables" {
+		_, res.Eh, res.Ef = splitEcho(idsOf(scanTokens(s)))
+	}
+	return res
 }
 
 // levelsOf reads back the heading level presented per body block (0: none; -1: the
@@ -153,6 +185,9 @@ func levelsOf(c c16HCall, res c16HResult, d wpw.Doc, bases []int) []int {
 			}
 		}
 		for i := range d.Body {
+			if blockTokens(bases, i, len(d.Body)) == 0 {
+				continue // an echo paragraph has no token of its own (and is not a heading)
+			}
 			it, ok := at[bases[i]+1]
 			switch {
 			case !ok:
@@ -170,6 +205,9 @@ func levelsOf(c c16HCall, res c16HResult, d wpw.Doc, bases []int) []int {
 		}
 	}
 	for i := range d.Body {
+		if blockTokens(bases, i, len(d.Body)) == 0 {
+			continue
+		}
 		t, ok := pos[bases[i]+1]
 		if !ok {
 			lv[i] = -1
@@ -187,13 +225,33 @@ func levelsOf(c c16HCall, res c16HResult, d wpw.Doc, bases []int) []int {
 	return lv
 }
 
+// blockTokens: -1 if unknown (last block), else the number of tokens block i wrote.
+func blockTokens(bases []int, i, n int) int {
+	if i+1 < len(bases) { // (the callers append the total number of tokens)
+		return bases[i+1] - bases[i]
+	}
+	return -1
+}
+
 func histKey(c *c16HCase) string {
 	return c.Fmt + "|" + string(mustJSON(c.Body)) + "|" + string(mustJSON(c.Calls))
 }
 
 func callName(c c16HCall) string {
+	n := c.Op
 	if c.Op == "rag" {
-		return fmt.Sprintf("rag(%d,%d)", c.Off, c.Mx)
+		n = fmt.Sprintf("rag(%d,%d)", c.Off, c.Mx)
+	}
+	if c.Xo != "" && c.Xo != "none" {
+		n += "{exclude " + c.Xo + "}"
+	}
+	return n
+}
+
+// opName is the call's name in signatures: the view and, if any, its exclusion options.
+func opName(c c16HCall) string {
+	if c.Xo != "" && c.Xo != "none" {
+		return c.Op + "-x" + c.Xo
 	}
 	return c.Op
 }
@@ -230,7 +288,7 @@ func c16HistoryCase(i int, raw []byte) Result {
 		if got.Err != "" {
 			return bad(n, "error", call.Op, "call failed: "+got.Err, got)
 		}
-		lv := levelsOf(call, got, d, c.Bases)
+		lv := levelsOf(call, got, d, append(append([]int{}, c.Bases...), c.NTok))
 		// (1) the spec's levels: what a freshly opened reader presents
 		if !intsEq(lv, call.Levels) {
 			// is it the history?  the same call on a fresh reader
@@ -238,15 +296,31 @@ func c16HistoryCase(i int, raw []byte) Result {
 			if ferr != nil {
 				panic("machinery: " + ferr.Error())
 			}
-			flv := levelsOf(call, fr.call(call), d, c.Bases)
+			flv := levelsOf(call, fr.call(call), d, append(append([]int{}, c.Bases...), c.NTok))
 			fr.close()
 			res.Evals++
 			if intsEq(flv, call.Levels) {
-				return bad(n, "history", culprit(path, &c, n)+"-then-"+call.Op,
+				return bad(n, "history", histFeature(path, &c, n),
 					fmt.Sprintf("%s presents heading levels %v per block; a fresh reader (and the spec) %v", callName(call), lv, call.Levels), got)
 			}
 			return bad(n, "heading-level", "view-"+call.Op,
 				fmt.Sprintf("%s presents heading levels %v per block, authored %v (also on a fresh reader)", callName(call), lv, call.Levels), got)
+		}
+		// (1b) body paragraphs equal to the header / footer line: shown unless the call's own
+		// options cover them (the spec's count is then the full count)
+		if call.Op != "tables" && ((call.Eh == call.NEh && got.Eh != call.NEh) || (call.Ef == call.NEf && got.Ef != call.NEf)) {
+			fr, ferr := c16OpenReader(path, c.Fmt)
+			if ferr != nil {
+				panic("machinery: " + ferr.Error())
+			}
+			want := fr.call(call)
+			fr.close()
+			res.Evals++
+			what := fmt.Sprintf("%s shows %d / %d of the body paragraphs equal to the header / footer line; its own options cover %s, so %d / %d are body content", callName(call), got.Eh, got.Ef, call.Xo, call.Eh, call.Ef)
+			if want.Eh == call.Eh && want.Ef == call.Ef {
+				return bad(n, "history", histFeature(path, &c, n), what+" (a fresh reader shows them)", got)
+			}
+			return bad(n, "hf-echo", call.Op, what+" (also on a fresh reader)", got)
 		}
 		// (2) tokens: presence / order in every view but tables
 		if call.Op != "tables" {
@@ -267,7 +341,7 @@ func c16HistoryCase(i int, raw []byte) Result {
 		fr.close()
 		res.Evals++
 		if string(mustJSON(got)) != string(mustJSON(want)) {
-			return bad(n, "history", culprit(path, &c, n)+"-then-"+call.Op,
+			return bad(n, "history", histFeature(path, &c, n),
 				fmt.Sprintf("%s returns a different result than on a freshly opened reader", callName(call)), map[string]interface{}{"got": got, "fresh": want})
 		}
 	}
@@ -280,6 +354,16 @@ func callNames(cs []c16HCall) []string {
 		l = append(l, callName(c))
 	}
 	return l
+}
+
+// histFeature names a history failure: the earlier call that causes it and the failing call;
+// when both carry exclusion options of their own and those differ, that is the feature.
+func histFeature(path string, c *c16HCase, n int) string {
+	cul := culprit(path, c, n)
+	if strings.Contains(cul, "-x") && strings.Contains(opName(c.Calls[n]), "-x") {
+		return "exclusion-options-of-an-earlier-call"
+	}
+	return cul + "-then-" + opName(c.Calls[n])
 }
 
 // culprit finds the single earlier call that alone makes call n differ from a fresh
@@ -300,7 +384,7 @@ func culprit(path string, c *c16HCase, n int) string {
 		got := string(mustJSON(r.call(c.Calls[n])))
 		r.close()
 		if got != want {
-			return c.Calls[k].Op
+			return opName(c.Calls[k])
 		}
 	}
 	return "some"
@@ -322,6 +406,9 @@ func c16HistRecordCase(i int, raw []byte) Result {
 	for k := 0; k < q.N; k++ {
 		fmtName := []string{"docx", "odt"}[k%2]
 		d := c16RandDoc(rnd, fmtName, 3+rnd.Intn(q.Blocks))
+		if rnd.Intn(2) == 0 {
+			d.Hdr, d.Ftr = 1, 1
+		}
 		d.Sheet = nil // (a sheet may leave a block's kind open; histories use determined documents)
 		body := d.Body[:0]
 		for _, b := range d.Body {
@@ -335,6 +422,17 @@ func c16HistRecordCase(i int, raw []byte) Result {
 			}
 		}
 		d.Body = body
+		// body paragraphs equal to the header / footer line, where the document has one
+		for _, a := range []string{"eh", "ef"} {
+			if a == "eh" && d.Hdr == 1 || a == "ef" && d.Ftr == 1 {
+				at := rnd.Intn(len(d.Body) + 1)
+				if at > 0 && at < len(d.Body) && d.Body[at].K == "LI" && d.Body[at].How == "cont" {
+					continue // (would cut an item from its continuation paragraph)
+				}
+				echo := wpw.Block{K: "P", Ch: []wpw.Child{{W: "r", A: []string{a}}}, Tb: wpw.Tbl{Hm: [][]int{}, Vm: [][]int{}, Mp: [][]int{}, Rc: [][]int{}}}
+				d.Body = append(d.Body[:at], append([]wpw.Block{echo}, d.Body[at:]...)...)
+			}
+		}
 		path, rend, err := c16Write(d, fmt.Sprintf("hrec%d_%d", i, k))
 		if err != nil {
 			panic("machinery: " + err.Error())
@@ -349,18 +447,21 @@ func c16HistRecordCase(i int, raw []byte) Result {
 			continue
 		}
 		for n := 0; n < 2+rnd.Intn(q.Calls); n++ {
-			call := c16HCall{Op: ops[rnd.Intn(len(ops))]}
+			call := c16HCall{Op: ops[rnd.Intn(len(ops))], Xo: "none"}
+			if call.Op == "text" || call.Op == "mdopt" || call.Op == "rag" {
+				call.Xo = []string{"none", "h", "f", "hf"}[rnd.Intn(4)]
+			}
 			if call.Op == "rag" {
 				call.Off, call.Mx = rnd.Intn(5)-2, []int{0, 0, 1, 2, 3, 4, 5, 6, 9}[rnd.Intn(9)]
 			}
 			got := rd.call(call)
 			res.Evals++
-			e := Event{"event": "Call", "op": call.Op, "off": call.Off, "mx": call.Mx}
+			e := Event{"event": "Call", "op": call.Op, "off": call.Off, "mx": call.Mx, "xo": call.Xo, "eh": got.Eh, "ef": got.Ef}
 			if got.Err != "" {
 				e["err"] = got.Err
 				e["levels"] = []int{}
 			} else {
-				e["levels"] = levelsOf(call, got, d, rend.Bases)
+				e["levels"] = levelsOf(call, got, d, append(append([]int{}, rend.Bases...), rend.NTok))
 			}
 			res.Events = append(res.Events, e)
 		}
